@@ -2,7 +2,7 @@
 From Coq Require Import List ZArith Bool.
 From LJT Require Import model.Huff gen.GenParams model.CParams proofs.CParamsHoare proofs.CParamsTj
   proofs.CParamsScript proofs.CParamsChain proofs.CParamsSetup proofs.CParamsBlock proofs.CParamsMaster
-  proofs.CParamsPasses proofs.CParamsSimd proofs.CParamsExamples lib.Sweep model.CProgScript proofs.CProgScriptProofs model.CRestart proofs.CRestartProofs model.CMarker proofs.CMarkerProofs model.CParamApi proofs.CParamApiProofs.
+  proofs.CParamsPasses proofs.CParamsSimd proofs.CParamsExamples lib.Sweep model.CProgScript proofs.CProgScriptProofs model.CRestart proofs.CRestartProofs model.CMarker proofs.CMarkerProofs model.CParamApi proofs.CParamApiProofs model.CRefine proofs.CRefineProofs.
 Import ListNotations.
 Local Open Scope Z_scope.
 
@@ -258,6 +258,20 @@ Theorem C17_app_markers : forall img scans data regen apps n optimize dcr st d, 
          fold_left dview_step tr d = fold_left dview_step tr0 d).
 Proof. exact app_markers_lemma. Qed.
 Print Assumptions C17_app_markers.
+
+(* jcphuff.c encode_mcu_AC_refine: the correction-bit buffer.  With the flush test and the sizes read from the source
+   (BE > MAX_CORR_BITS - DCTSIZE2 + 1 forces the pending EOB run out; bit_buffer has MAX_CORR_BITS bytes) every index
+   written into bit_buffer is inside the allocation, for EVERY sequence of blocks of the scan (bands of <= 63 coefficients) *)
+Theorem C17_corr_buffer_safe : forall blocks s,
+  sinv s -> r_BE s <= g_CORR_FLUSH_THRESHOLD ->
+  Forall (fun b => Z.of_nat (length b) <= g_DCTSIZE2 - 1) blocks ->
+  Forall (fun i => 0 <= i < g_CORR_BUFFER_SIZE) (refine_scan s blocks).
+Proof. exact corr_buffer_safe_lemma. Qed.
+Print Assumptions C17_corr_buffer_safe.
+Example C17_ex_corr_buffer_boundary :
+  let full := repeat Ccorr 63 in
+  fold_left Z.max (refine_scan {| r_EOBRUN := 0; r_BE := 0 |} (repeat full 14 ++ [repeat Ccorr 55 ++ repeat Czero 8; full])) 0 = 999.
+Proof. exact corr_buffer_boundary. Qed.
 
 (* ---- the parameter-setting API (jcparam.c), module selection (jcinit.c), TurboJPEG entry points ---- *)
 Theorem C17_quality_scaling_range : forall q, 0 <= quality_scaling q <= 5000.
